@@ -123,7 +123,9 @@ CLAIMED = {
             "BASE of <= 2/3 lines, THIS and OTHER derived by per-line edit scripts with symbolic line contents; a text "
             "conflict is recorded exactly when the three-way merge has conflicting regions, helper files get exactly "
             "BASE/OTHER/THIS, clean merges produce the region-wise merged text, and the unchanged-side / identical-change "
-            "laws hold. Real trees, helper files on disk and conflict resolution are outside.",
+            "laws hold. For the weave / lca merge types: WeaveMerger.text_merge records a conflict (with helper files carrying "
+            "the reconstructed base) exactly when the merge plan reported one, also when that base text is empty. Real "
+            "trees, the plan-based merges themselves, helper files on disk and conflict resolution are outside.",
             "the compiled patience matcher is replaced by the alignment of the edit scripts; trees / transform are stubs"),
     "C20": ("conflict selection kernel",
             "The real ConflictList.select_conflicts over real TextConflict / PathConflict objects with SYMBOLIC paths and file "
@@ -146,8 +148,10 @@ CLAIMED = {
     "C22": ("numeric revision specifiers (kernel)",
             "RevisionSpec.from_string(...).in_history(branch) for revno:n, bare n, negative n, last:n, before:n, "
             "before:revno:n, dotted revno:a.b.c and arbitrary short malformed text after 'revno:', with SYMBOLIC n, symbolic "
-            "history length and symbolic text, against the definitions in the specifier help. Dotted revno maps, "
-            "merge-sorted numbering (compiled) and the revid:/tag:/ancestor:/mainline:/date: specifiers are outside.",
+            "history length and symbolic text, against the definitions in the specifier help; before:<dotted revno> on a merged "
+            "revision with 0..3 parents names its left-hand parent, through in_history and as_revision_id alike; the real "
+            "Branch dotted-number lookup over an arbitrary one-to-one numbering. Merge-sorted numbering (compiled) and the "
+            "revid:/tag:/ancestor:/mainline:/date: specifiers are outside.",
             "branch is a stub with a symbolic number of mainline revisions"),
     "C23": ("bound-branch commit kernel (first sentence of C23)",
             "The real Commit._check_bound_branch, _check_out_of_date_tree and _update_branches, called in commit()'s order over "
@@ -160,9 +164,11 @@ CLAIMED = {
             "commit() uses"),
     "C24": ("tag reconciliation kernel",
             "Decides the reconciliation sentence for the real _reconcile_tags with symbolic tag names and revision ids "
-            "(<= 2/3 tags per dictionary), overwrite on/off, arbitrary selector. Persistence of tag dictionaries (bencode, "
-            "branch storage) is outside.",
-            "dict literals of the lifted module are association-list dictionaries"),
+            "(<= 2/3 tags per dictionary), overwrite on/off, arbitrary selector; InterTags.merge over stub branches (master "
+            "handling, reports, locks). Storage: BasicTags._set_tag_dict / get_tag_dict through the branch's tag bytes read a "
+            "dictionary with symbolic unicode names (composed and decomposed spellings of one letter included) and symbolic "
+            "revision ids back unchanged. The compiled bencode itself and the tag file I/O are outside.",
+            "dict literals of the lifted module are association-list dictionaries; fastbencode replaced by a validated model"),
     "C25": ("log ordering laws",
             "Decides the ordering laws (permutation, mainline reversal, block contiguity, involution, depth rebasing) for the "
             "real reverse_by_depth / _rebase_merge_depth on views of <= 6/8 revisions with symbolic merge depths. View "
@@ -212,7 +218,8 @@ CLAIMED = {
             "searcher and limited_search_result_from_parent_map are outside.",
             "revision ids contain no space / newline; the server walk is a reference model in the harness"),
     "C34": ("git commit field round trip",
-            "import_commit then export_commit on symbolic times, time zones, flags, message (present/None) and the bzr "
+            "import_commit then export_commit on symbolic times, time zones, flags, author NAMES (letters and spaces before "
+            "<email>), message (present/None) and the bzr "
             "metadata block (inject/extract), plus gpg signature and merge tags as ARBITRARY bytes through commits with "
             "no / utf-8 / iso8859-1 encoding header. Byte-for-byte identity of the serialised commit (dulwich) is outside.",
             "input commit is an attribute record; symbolic messages are ASCII; merge tags are carried by a stand-in for "
@@ -270,7 +277,8 @@ CLAIMED = {
     "C49": ("location section matching",
             "LocationMatcher / _iter_for_location_by_parts / LocationSection.get over concrete section-name sets and a "
             "SYMBOLIC location: the matching sections, their specificity order, ignore_parents and relpath expansion agree "
-            "with a reference. Store round trip through configobj is outside.",
+            "with a reference; an empty value in a more specific section is a value (it hides the parent's), an option the "
+            "section lacks yields the default. Store round trip through configobj is outside.",
             "section names enumerated; urlutils helpers modelled"),
     "C50": ("command line splitting",
             "Full property for breezy.cmdline.split: quote-then-split round trip for <= 2 arguments of <= 3/4 symbolic chars, "
